@@ -67,6 +67,11 @@ func init() {
 		ExtraCfg: func(tier string) string { return "  Tier = \"" + tier + "\"\n" }}
 }
 
+func init() {
+	families["C08"] = &rt.Family{Prop: "C08", Module: "MC_C08", PackSize: 1, Judge: "value", Consts: true,
+		Rule: "units = every ordered list of up to 3 distinct atoms of {\"a\",\"bé\",1,2,1.5,true,false,null} conforming to the declared type (absent, string, integer, number, boolean, null, [string,null]) x 5 uses (required, optional, via $ref, array items, optional with default); documents = the 8 atoms, 4 non-members of different JSON types, absent. Judged: verdict, decoded value and re-marshalled value (bare JSON value), and the typed string constants read from the emitted source. distinct_nontrivial = distinct (unit, document) pairs with a definite reference verdict"}
+}
+
 func hasMult(u *rt.Unit) bool {
 	b := fmt.Sprint(u.Raw["schema"], u.Raw["defs"])
 	return containsStr(b, "multipleOf")
